@@ -100,8 +100,12 @@ def run(shard, ctx):
                      if ctx.want_sample() and not garbage else None)
             ctx.count("unmarshall_calls")
             ctx.add("modes", "%s:%s" % (f.name, mode[0] if isinstance(mode, tuple) else mode))
+            variant = (0, 0, 1, 2)[TICK[0] % 4]
+            TICK[0] += 1
+            ctx.add("call_variants", ("bytearray+keywords", "bytes", "positional")[variant])
+            wit["call"] = ("bytearray, keyword arguments", "immutable bytes", "extra arguments by position")[variant]
             try:
-                res = f.lib_decode(buf, v)
+                res = f.lib_decode(buf, v, variant)
             except Exception as e:  # noqa: BLE001
                 ctx.fail("C04:%s.raises.%s" % (f.name, type(e).__name__), "%s: unmarshall_datain raised %s: %s" % (f.name, type(e).__name__, e), wit, exc=e)
                 continue
@@ -143,6 +147,9 @@ def run(shard, ctx):
                          % (kw, len(cmd.datain), v["_tl"], len(b)), dict(wit, method=method, kwargs=kw))
                 continue
             judge(ctx, f, "facade", v, b, res, dict(wit, method=method, kwargs=kw))
+
+
+TICK = [0]
 
 
 def finalize(merged, tier):
